@@ -11,6 +11,10 @@
      c07_builders  a builder sequence applied to a real ArchiveWriterConfig (layer bits, encryption_key(),
                    encryption_nonce(), check())  ==  the builders of Fresh.v folded over the same sequence
    Definitions only. *)
+From MLA Require Import Limit.
+From MLAGen Require Src.
+(* executable entry points: the production value of BINCODE_MAX_DESERIALIZE (the same in both flavours), file-local *)
+#[local] Instance RUN_LIMIT : Limit := MLAGen.Src.BINCODE_MAX_DESERIALIZE_prod.
 From MLA Require Import Base Stream Inst EncLayer EncWriter InstGcm Masked Builders Fresh ArchiveInst RunWRows.
 From MLA Require Import Blocks Writer Archive.
 From MLA.Concrete Require Aes Sha256 ChaCha20.
